@@ -786,7 +786,7 @@ def run(tier, seed):
                                                             ("T29", "A", b"pw3", 1, 4), ("T29", "B", b"pw3", 2, 3)], 3)
     for n in ["BFS4/T23/4step"] + (["BFS5/T23+T29/3step"] if tier != "quick" else []):
         tasks.append(("bfs", (n, tier)))
-    for nm, k in ([("Params1024", 2000), ("T23", 4000)] if tier == "quick" else [("Params1024", 9000), ("Params2048", 2500), ("ParamsEd25519", 1500), ("T23", 100000)]):
+    for nm, k in ([("Params1024", 3000), ("T23", 4000)] if tier == "quick" else [("Params1024", 9000), ("Params2048", 2500), ("ParamsEd25519", 1500), ("T23", 100000)]):
         tasks.append(("soak", (nm, k)))
     tasks.append(("dflt", (300 if tier == "quick" else 1500,)))
     for nm in (["T23", "ParamsEd25519"] if tier == "quick" else ["T23", "E37", "ParamsEd25519", "Params1024"]):
